@@ -14,43 +14,50 @@ FILES = ["c27_regex_test.go"]
 
 def run(ctx):
     ctx.level = "translation_validation"
-    npat = ctx.pick(260, 2500)
-    slen = ctx.pick(3, 4)
-    rc, out, trace = ctx.driver(PKG, "^TestVerif_C27_Regex$", FILES,
-                                env={"VERIF_PATTERNS": npat, "VERIF_SUBJLEN": slen}, timeout=900)
-    if rc != 0:
-        raise vk.Inconclusive("driver failed:\n" + out[-3000:])
-    events = vk.read_ndjson(trace)
-    subjects = events[1]["list"]
-    pats = [e for e in events if e["ev"] == "re"]
-    acc, rej = ctx.validate_trace_sharded("Trace_Regex", "Trace_Regex.cfg", trace, header_lines=2,
-                                          shards=12, timeout=ctx.pick(600, 3000))
-    oracle_bad = [r for r in rej if r["why"].startswith("oracle")]
-    if oracle_bad:
-        r = oracle_bad[0]
-        e = events[r["line"] - 1]
-        raise vk.Inconclusive("the specification's regexp semantics disagrees with the engine on the ORIGINAL "
-                              "pattern %r (%s, subject #%s): oracle calibration failure, not a verdict" % (
-                                  e["src"], r["why"], r["expected"]["subject"]))
-    for r in rej:
-        e = events[r["line"] - 1]
-        k = r["expected"]["subject"]
-        subj = "".join(chr(c) for c in subjects[k - 1]) if k and k > 0 else None
-        which = "r1" if r["why"].startswith("print") else "r2"
-        ctx.violation("C27:" + r["why"], {
-            "pattern": e["src"], "printed": e["printed"], "subject": subj,
-            "expected_first_match": r["expected"]["exp"],
-            "observed": e[which][k - 1] if k and k > 0 and e[which] else None})
-    nontriv = 0
-    for e in pats:
-        hits = sum(1 for x in e["r0"] if x[0] >= 0)
-        if 0 < hits < len(e["r0"]):
-            nontriv += 1
-    ctx.traces_validated = len(pats) - len({r["line"] for r in rej})
-    ctx.sample({"pattern": pats[0]["src"], "printed": pats[0]["printed"], "subjects": len(subjects)})
-    ctx.sample({"pattern": pats[len(pats) // 2]["src"], "printed": pats[len(pats) // 2]["printed"]})
+    families = [("^TestVerif_C27_Regex$", ctx.pick(260, 2500), ctx.pick(3, 4)),
+                ("^TestVerif_C27_Classes$", ctx.pick(200, 1500), 2)]
+    all_pats, nontriv, nrej, nsubj = [], 0, 0, 0
+    for test, npat, slen in families:
+        rc, out, trace = ctx.driver(PKG, test, FILES,
+                                    env={"VERIF_PATTERNS": npat, "VERIF_SUBJLEN": slen}, timeout=900)
+        if rc != 0:
+            raise vk.Inconclusive("driver failed:\n" + out[-3000:])
+        events = vk.read_ndjson(trace)
+        subjects = events[1]["list"]
+        pats = [e for e in events if e["ev"] == "re"]
+        acc, rej = ctx.validate_trace_sharded("Trace_Regex", "Trace_Regex.cfg", trace, header_lines=2,
+                                              shards=12, timeout=ctx.pick(600, 3000))
+        oracle_bad = [r for r in rej if r["why"].startswith("oracle")]
+        if oracle_bad:
+            r = oracle_bad[0]
+            e = events[r["line"] - 1]
+            raise vk.Inconclusive("the specification's regexp semantics disagrees with the engine on the ORIGINAL "
+                                  "pattern %r (%s, subject #%s): oracle calibration failure, not a verdict" % (
+                                      e["src"], r["why"], r["expected"]["subject"]))
+        for r in rej:
+            e = events[r["line"] - 1]
+            k = r["expected"]["subject"]
+            subj = "".join(chr(c) for c in subjects[k - 1]) if k and k > 0 else None
+            which = "r1" if r["why"].startswith("print") else "r2"
+            ctx.violation("C27:" + r["why"], {
+                "pattern": e["src"], "printed": e["printed"], "subject": subj,
+                "expected_first_match": r["expected"]["exp"],
+                "observed": e[which][k - 1] if k and k > 0 and e[which] else None})
+        for e in pats:
+            hits = sum(1 for x in e["r0"] if x[0] >= 0)
+            if 0 < hits < len(e["r0"]):
+                nontriv += 1
+        ctx.traces_validated += len(pats) - len({r["line"] for r in rej})
+        ctx.sample({"family": test, "pattern": pats[0]["src"], "printed": pats[0]["printed"], "subjects": len(subjects)})
+        ctx.sample({"pattern": pats[len(pats) // 2]["src"], "printed": pats[len(pats) // 2]["printed"]})
+        all_pats += pats
+        nrej += len(rej)
+        nsubj = max(nsubj, len(subjects))
+    pats, rej = all_pats, [None] * nrej
+    subjects = [None] * nsubj
+    slen = families[0][2]
     ctx.assumptions += ["regexp/syntax parser (AST) trusted; the matcher is not: expected matches come from spec/lib/Regex.tla",
-                        "subjects bounded: alphabet {a,b,A,\\n,e-acute}, length <= %d" % slen]
+                        "subjects bounded: alphabet {a,b,A,\\n,e-acute}, length <= %d; class family: 23-character pool, length <= 2" % slen]
     return ctx.finish(
         evaluations=len(pats) * len(subjects) * 3, distinct_nontrivial=nontriv,
         rule="distinct pattern sources from a seeded skeleton grammar (depth<=3); each evaluated on all %d subjects "
